@@ -14,6 +14,8 @@ Stub: the thread pool and its completion order.
 Everything is single-threaded; nested ``get`` calls (tasks or library code
 calling compute while a compute is running) get their own frame.
 """
+import bisect
+import heapq
 import hashlib
 from concurrent.futures import Future
 
@@ -73,6 +75,10 @@ class _Pending:
         self.seq = seq
         self.straggle = False
         self.seen = False
+
+
+def _skey_of(p):
+    return p.skey
 
 
 class _Frame:
@@ -164,7 +170,8 @@ class SimScheduler:
         frame = self.frames[-1]
         fut = Future()
         self._seq += 1
-        frame.pending.append(_Pending(args[0][0], fut, fn, args, frame.gen, self._seq))
+        bisect.insort(frame.pending, _Pending(args[0][0], fut, fn, args, frame.gen, self._seq),
+                      key=_skey_of)
         return fut
 
     # -------------------------------------------------------------- policies
@@ -187,11 +194,14 @@ class SimScheduler:
             return n - 1
         if p == "window":
             w = int(self.policy_arg or 4)
-            frame.running = [x for x in frame.running if x in pool]
+            live = {id(x) for x in pool}
+            frame.running = [x for x in frame.running if id(x) in live]
             if len(frame.running) < w:
-                rest = sorted((x for x in pool if x not in frame.running),
-                              key=lambda x: (-x.gen, x.skey))
-                frame.running.extend(rest[: w - len(frame.running)])
+                run_ids = {id(x) for x in frame.running}
+                need = w - len(frame.running)
+                rest = heapq.nsmallest(need, (x for x in pool if id(x) not in run_ids),
+                                       key=lambda x: (-x.gen, x.skey))
+                frame.running.extend(rest)
             pick = frame.running[self.rng.randrange(len(frame.running))]
             frame.running.remove(pick)
             return pool.index(pick)
@@ -233,11 +243,10 @@ class SimScheduler:
             raise RuntimeError("graphsim: scheduler waits but nothing is in flight")
         if self.step >= self.step_cap:
             raise StepCap(self.step)
-        pool = sorted(frame.pending, key=lambda x: x.skey)
+        pool = frame.pending            # kept sorted by canonical key (insort in _submit)
         n = len(pool)
         i = self._choose(pool, frame)
-        p = pool[i]
-        frame.pending.remove(p)
+        p = pool.pop(i)
         frame.gen += 1
         frame.steps += 1
         step = self.step
